@@ -8,13 +8,13 @@ TRUSTED = [
     "Model/IsoParser.lean is a hand model of src/dateutil/parser/isoparser.py; tied by the iso.parse / iso.date / iso.time / iso.tz correspondence on every rendered string (str and bytes inputs)",
     "Spec/IsoForms.lean `render` is the printer of the documented forms; `denote` its meaning. Both are cross-checked on every run against Python's own isocalendar()/tm_yday/replace() (the expected value of a case is computed twice, in Lean and in Python)",
     "datetime()/date()/time() construction and date +- timedelta are modelled by validity predicates and ordinal range checks",
-    "harness/translate_bytes.py (BytesPy translator): _parse_digits, _parse_tzstr, _parse_isodate_common, _calculate_weekdate, _parse_isodate_uncommon, _parse_isodate, _parse_isotime, the bodies of isoparse, parse_isodate, parse_isotime and parse_tzstr are RE-TRANSLATED from /repo's isoparser.py into Generated/IsoKernels.lean on every run (150 of the module's 164 statements); anything outside the fragment aborts with a named construct (broken tie)",
+    "harness/translate_bytes.py (BytesPy translator): _parse_digits, _parse_tzstr, _parse_isodate_common, _calculate_weekdate, _parse_isodate_uncommon, _parse_isodate, _parse_isotime, the bodies of isoparse, parse_isodate, parse_isotime and parse_tzstr and the inner function of the `_takes_ascii` decorator are RE-TRANSLATED from /repo's isoparser.py into Generated/IsoKernels.lean on every run (159 of the module's 164 statements); anything outside the fragment aborts with a named construct (broken tie)",
     "Proofs/IsoGenEq.lean + Proofs/IsoGenLoop.lean prove EVERY translated function equal to the hand model for all inputs (incl. the `while` loop of _parse_isotime by a simulation lemma: 8 units of fuel suffice), so every audited `_gen` theorem is a statement about the translation of today's source; a behaviour-changing edit breaks a named `_eq`/`sim_*` obligation (or the translation itself)",
-    "named primitives of the translator (Model/BytesPy.lean), trusted with their documented Python meaning and exercised by the isogen.* validation on every run: slice/len/`in` on bytes, bytes.isdigit, int(bytes) (whitespace, sign, PEP 515 underscores), the fraction regex as `fractionMatch`, list get/set (in-range), date()/isocalendar()/timedelta arithmetic on ordinals, date(*l)/time(*l)/datetime(*l), try/except on the exception kind",
-    "still hand-modelled: the `_takes_ascii` decorator and isoparser.__init__ (14 of 164 statements); C07.input_kinds_equivalent states the str/bytes/stream equivalence over the hand model of `_takes_ascii`, and the oracle exercises str, bytes and StringIO inputs on every run",
+    "named primitives of the translator (Model/BytesPy.lean), trusted with their documented Python meaning and exercised by the isogen.* validation on every run: slice/len/`in` on bytes, bytes.isdigit, int(bytes) (whitespace, sign, PEP 515 underscores), the fraction regex as `fractionMatch`, list get/set (in-range), date()/isocalendar()/timedelta arithmetic on ordinals, date(*l)/time(*l)/datetime(*l), try/except on the exception kind, and for `_takes_ascii`: `readAll` = getattr(x,'read',lambda: x)() (a stream delivers EVERYTHING from its current position; str/bytes unchanged), isinstance(x, six.text_type), str.encode('ascii'), and the coercion of the gated value to bytes when the wrapped method is called",
+    "still hand-modelled: isoparser.__init__ only (5 of 164 statements: the `sep` check; Model `mkSep`, exercised with valid and invalid `sep` arguments on every run); the oracle compares str, bytes, StringIO, BytesIO and partially consumed streams on every generated text, incl. texts with line breaks and surrounding blanks",
 ]
 ASSUMPTIONS = [
-    "the separator between date and time is a single non-digit ASCII byte (digit separators are ambiguous with basic forms and outside the property)",
+    "separator domain: any single byte, except that a digit is not used after a basic ordinal date YYYYDDD (the only ambiguous case: '2014059112' reads as 2014-05-91); for TEXT input the separator must be ASCII, because _takes_ascii rejects non-ASCII text with ValueError before parsing (C20.non_ascii_rejected) while bytes input accepts any byte: str/bytes/stream equivalence is therefore claimed and checked for ASCII text only",
     "incomplete dates (YYYY, YYYY-MM, YYYY-Www) stand alone: the parser documents that they cannot be followed by a time",
     "StringIO input is equivalent to str input through `.read()`; bytes input skips the ASCII gate",
 ]
@@ -64,6 +64,8 @@ def build_cases(ctx):
             frac = (usd + [rng.randint(0, 9) for _ in range(3)])[:k] if tf in ic.HAS_F else []
             neg, oh, om = ic.gen_offset(rng)
             sepb = ic.SEPARATORS[(j + df) % len(ic.SEPARATORS)] if j % 3 else 84
+            if df != 9 and j % 11 == 5:
+                sepb = rng.choice([48, 49, 53, 57])    # a DIGIT as separator: unambiguous except after YYYYDDD
             # what the form shows of the time
             shown_zero = (tf != 0 and dt.hour == 0 and (tf not in ic.HAS_M or dt.minute == 0)
                           and (tf not in ic.HAS_S or dt.second == 0)
@@ -175,9 +177,10 @@ def oracle(ctx):
             ctx.count("hour24")
         if c["tf"] in ic.HAS_F:
             ctx.count("frac_digits_%d" % c["k"])
-        runs = [(None, "bytes", c["raw"])]
+        runs = [(None, "bytes", c["raw"]), (None, "bstream", c["raw"]), (None, "bstream@3", c["raw"])]
         if c["sep"] < 128:
-            runs += [(None, "str", s), (None, "stream", s), (chr(c["sep"]), "str", s), (chr(c["sep"]), "bytes", s)]
+            runs += [(None, "str", s), (None, "stream", s), (None, "stream@7", s), (chr(c["sep"]), "str", s),
+                     (chr(c["sep"]), "bytes", s), (chr(c["sep"]), "stream", s), (chr(c["sep"]), "bstream@3", s)]
             if c["tf"] == 0:
                 runs.append(("T", "str", s))
         for (sepcfg, kind, inp) in runs:
@@ -194,7 +197,7 @@ def oracle(ctx):
             for (entry, part, pexp) in sub_entries(c):
                 if pexp is None:
                     continue
-                for kind in ("str", "bytes"):
+                for kind in ("str", "bytes", "stream", "bstream@3"):
                     got = ic.entry_impl(entry, part, kind=kind)
                     ctx.case((entry, None, kind, part))
                     ctx.count("entry_" + entry)
@@ -202,6 +205,22 @@ def oracle(ctx):
                         ctx.violation("parse_%s(%r) = %s, expected %s" % (entry, part, got, pexp),
                                       {"entry": entry, "sep": None, "kind": kind, "string": part, "form": name, "expected": pexp},
                                       {"impl": got})
+        # str / bytes / text stream / byte stream / partially consumed streams must agree on EVERY text, also on
+        # texts decorated with line breaks and blanks (whatever the result is: value or exception kind)
+        if c["sep"] < 128:
+            wv = ic.WHITESPACE_VARIANTS[(c["df"] + c["tf"] + c["of"] + c["k"]) % len(ic.WHITESPACE_VARIANTS)]
+            for txt in (s, wv(s)):
+                res, ok = ic.kinds_agree("isoparse", txt)
+                ctx.case(("kinds", txt), nontrivial=True)
+                ctx.count("kinds_agree_cases")
+                if not ok:
+                    bad = sorted(res.items())
+                    ref = res["str"]
+                    k0 = next(k for k, v in bad if v != ref)
+                    ctx.violation("isoparse(%r) differs by input kind: str -> %s, %s -> %s" % (txt, ref, k0, res[k0]),
+                                  {"entry": "isoparse", "sep": None, "kind": k0, "string": txt, "form": name, "expected": ref,
+                                   "stream_content": (ic.STREAM_PREFIX[:int(k0.partition("@")[2] or 0)] + txt)},
+                                  {"by_kind": res})
         if len(ctx.samples) < 10 and (c["df"] * 7 + c["tf"] * 3 + c["of"]) % 41 == 0:
             ctx.sample({"form": name, "string": s, "expected": exp, "impl": ic.impl_parse(None, c["raw"], "bytes")})
     # offsets exhaustively through parse_tzstr
